@@ -723,6 +723,14 @@ def c_state(s):
     return "%s %s %s" % (heap, slots, det)
 
 
+def c_case_cb(nslots, cbn, steps):
+    """a case over scopes with CodeBlocks: wire type wcase_cb of coq/C16/ExecCB.v"""
+    inner = c_case(nslots, steps)                       # "(WC n steps)"
+    body = inner[len("(WC %d " % nslots):-1]
+    cbs = w_chain("WB", "WB0", (w_chain("WM", "WM0", (q(n) for n in names)) for names in cbn))
+    return "(WCB %d %s %s)" % (nslots, cbs, body)
+
+
 def c_case(nslots, steps, full=False):
     """expected states are written only where the implementation's state changed"""
     items, prev = [], None
@@ -1251,10 +1259,13 @@ def run(ctx):
         g.cb_names = [r2.sample(pool, r2.choice([0, 1, 2, 3])) for _ in range(nslots)]
         cb_hist.append((nslots, g.cb_names, g.history()))
     n_cb_ops = 0
+    cb_cases, cb_per_case = [], []
     for nslots, cbn, ops in cb_hist:
         ops = [normalise_op(o) for o in ops]
         steps, problems = run_history(ctx, nslots, ops, cb_names=cbn)
         n_cb_ops += len(steps)
+        cb_cases.append(c_case_cb(nslots, cbn, steps))
+        cb_per_case.append((nslots, cbn, ops, steps))
         for (op, res, _) in steps:
             ctx.hist("codeblock_histories", "%s -> %s" % (op[0], res[0] if res[0] != "err" else res[1]))
             ctx.count(("cb", nslots, cbn, ops), op[0] in ("merge", "rename"))
@@ -1274,10 +1285,25 @@ def run(ctx):
     # 4. model = implementation
     header = HEADER + "\n" + POOL.header()
     failing = ctx.coq_eval_failing(header, "wcase", "check_wcase", cases, shard=ctx.pick(80, 100))
-    ctx.cov["disagreements_checked"] = len(failing)
-    ctx.log("histories=%d steps=%d model/impl disagreements=%d property failures on impl=%d (keys: %s)"
-            % (len(cases), ctx.cov["evaluations"], len(failing), len(all_problems), sorted(seen)))
+    # 4b. the CodeBlock histories against the CodeBlock-aware model (coq/C16/CodeBlocks.v, ExecCB.v)
+    header_cb = HEADER.replace("C16.Exec.", "C16.Exec C16.CodeBlocks C16.ExecCB.") + "\n" + POOL.header()
+    failing_cb = ctx.coq_eval_failing(header_cb, "wcase_cb", "check_wcase_cb", cb_cases, shard=ctx.pick(80, 100))
+    ctx.notes["codeblock_histories_compared_with_model"] = len(cb_cases)
+    ctx.notes["codeblock_model_disagreements"] = len(failing_cb)
+    ctx.cov["disagreements_checked"] = len(failing) + len(failing_cb)
+    ctx.log("histories=%d (+%d with CodeBlocks) steps=%d model/impl disagreements=%d (+%d) property failures on impl=%d (keys: %s)"
+            % (len(cases), len(cb_cases), ctx.cov["evaluations"], len(failing), len(failing_cb), len(all_problems), sorted(seen)))
     new_violation = bool(ctx.violations)
+    if failing_cb and not new_violation and not failing and ok:
+        i = failing_cb[0]
+        nslots, cbn, ops, steps = cb_per_case[i]
+        shown = ctx.coq_eval_show(header_cb, ["first_bad_wcb %s" % cb_cases[i]])
+        ctx.violation({"property": "C16",
+                       "broken": "correspondence C16.ExecCB.step_cb = SymbolTable operations over scopes with CodeBlocks",
+                       "first_differing_case": {"nslots": nslots, "codeblock_names": cbn, "ops": [list(o) for o in ops],
+                                                "impl_results": [list(r) for _, r, _ in steps],
+                                                "first_differing_step(model)": shown},
+                       "n_differing": len(failing_cb)}, no_input=True)
     if (failing or not ok) and not new_violation:
         first = None
         if failing:
